@@ -169,6 +169,26 @@ def run_case(ctx, cls_name, ans, student, xs, ys, es, ss, tolerance, failable, c
         cfg['max_array_dim'] = 2
     if extra_cfg:
         cfg.update(extra_cfg)
+    # options that have no bearing on these formulas must not change the verdict ("bystanders")
+    by = {}
+    if ctx.rng.random() < 0.4:
+        pool = [('suppress_warnings', True), ('wrong_msg', 'nope'), ('forbidden_strings', ['zzz', 'x*x*x*x']), ('forbidden_message', 'F')]
+        if cls_name != 'NumericalGrader':
+            pool += [('metric_suffixes', True), ('blacklist', ['arccos', 'floor']), ('whitelist', ['abs', 'sqrt', 'sin', 'cos', 'exp']),
+                     ('user_constants', {'unusedc': 4.2}), ('user_functions', {'unusedf': abs}), ('allow_inf', True),
+                     ('required_functions', [])]
+        for k_, v_ in ctx.rng.sample(pool, ctx.rng.randint(1, 3)):
+            by[k_] = v_
+        if 'blacklist' in by and 'whitelist' in by:
+            del by['whitelist']
+        if 'allow_inf' in by and cls_name == 'MatrixGrader':
+            del by['allow_inf']
+        if extra_cfg:
+            for k_ in list(by):
+                if k_ in extra_cfg:
+                    del by[k_]
+        cfg.update(by)
+        ctx.count('bystander_option_cases')
     debug = ctx.counters['grader_calls'] % 6 == 5
     if debug:
         cfg['debug'] = True       # the debug path logs every comparison; the verdict is the same
@@ -180,7 +200,7 @@ def run_case(ctx, cls_name, ans, student, xs, ys, es, ss, tolerance, failable, c
     ctx.count('grader_calls')
     wit = dict(wit, grader=cls_name, answer=ans, submission=student, x_samples=list(xs), y_samples=list(ys),
                tolerance=tolerance, failable_evals=failable, credit=credit, oracle_pattern=pattern,
-               oracle_failures=fails, debug=debug, outcome=out.brief())
+               oracle_failures=fails, debug=debug, bystander_options=by, outcome=out.brief())
     if not out.returned:
         ctx.violation('C04:raises:' + cls_name, 'grading raised %r' % (out.exc,), wit)
         return
